@@ -473,5 +473,7 @@ def run(ctx: Ctx, rep: Report, tier: str):
     _alias12(rep, ["C06.R6"], "C12.Y14", "persisted state belongs to one pair of roots: storage_label names both providers' connection ids and BOTH roots (C06.R6), so a sync "
              "re-pointed at another root never inherits entries - ids of objects outside its root", 1, lambda: _C06c(ctx, rep).r6())
     from rules.decisions import decision_table, table_sites
-    rep.rule("C12.Y15", "decision table of root validation: every action site of _validate_provider_roots is reached under exactly the recorded path condition", table_sites("C12"))
-    section(rep, lambda: decision_table(ctx, rep, "C12.Y15", "C12"))
+    rep.rule("C12.DT", "decision table (rules/decisions.json) of root validation in the sync manager, the event manager and the provider base class: for every function and every action shape (an impure call with the parameters it passes, a store to an "
+             "attribute or item, a delete, a returned constant, a yield, a raise) the set of states - over the function's guard atoms - in which the action is taken "
+             "equals the recorded one; compared as canonical decision diagrams, so any equivalent respelling of the guards is the same table", table_sites("C12"))
+    section(rep, lambda: decision_table(ctx, rep, "C12.DT", "C12"))
